@@ -278,6 +278,7 @@ mod common;
 mod macros;
 pub use self::common::*;
 
+#[cfg_attr(metrics_verif, allow(missing_docs))]
 mod cow;
 #[cfg(metrics_verif)]
 #[doc(hidden)]
